@@ -110,8 +110,3 @@ def install(it):
     A(r'std::sync::atomic::Atomic(?:\w+|::<.*>)::load', m_atomic_load)
     A(r'futures::stream::FuturesUnordered::<.*>::new', m_empty_seq)
     A(r'indexmap::IndexMap::<.*>::new', lambda it, a, ty, c: MapModel(kind='indexmap'))
-    A(r'crypto::ed25519::Keypair::generate', m_extern('keypair'))
-    A(r'<crypto::ed25519::Keypair as std::clone::Clone>::clone', lambda it, a, ty, c: deref(it, a[0]))
-    A(r'crypto::ed25519::Keypair::public', m_extern('public-key'))
-    A(r'peer_id::PeerId::from_public_key', m_fresh_peer)
-    A(r'<crypto::(Remote)?PublicKey as std::convert::From<.*>>::from', m_extern('public-key'))
